@@ -1,6 +1,7 @@
 import HapModel.Model.BpOut
 import HapModel.Model.BpFile
 import HapModel.Props.C01
+import HapModel.Model.CmMono
 /-!
 # C02 — Breakpoint output tiles every simulated chromosome and respects the model
 
@@ -45,5 +46,40 @@ theorem write_framing (chosen : List (List String)) (n : Nat) (hl : chosen.lengt
 theorem bp_reader_accepts (data : List (BpFile.Name × List BpFile.Block × List BpFile.Block)) :
     BpFile.parse (BpFile.render data) = data :=
   BpFile.parse_render data
+
+/-- **every haplotype of every generation tiles every requested chromosome**: whatever the model (any number of
+    generations and samples, any founding populations and parents) and whatever the random tapes, each output haplotype
+    is strictly sorted by (chromosome, end) – base-pair ends strictly increase on a chromosome – and its last block on
+    every requested chromosome reaches the sentinel, so that every position has exactly one label -/
+theorem every_haplotype_tiles (n : Nat) (chromOf : Nat → Nat) (hmono : ∀ a b, a < b → b < n → chromOf a < chromOf b)
+    (cmEnd : Nat → Int) (gens : List (List SampleTape)) (hok : TapesOK n 0 gens) :
+    ∃ gs, simulateAll n chromOf cmEnd #[] gens = some gs ∧ ∀ g ∈ gs, ∀ segs ∈ g.toList,
+      segs.toList.Pairwise SegLt ∧ ∀ ci, ci < n → ∃ s ∈ segs.toList, s.chrom = chromOf ci ∧ MAX ≤ s.endc := by
+  obtain ⟨gs, h1, _, h3⟩ := C01.every_generation_wf n chromOf hmono cmEnd gens hok
+  exact ⟨gs, h1, fun g hg segs hs => h3 g hg segs hs⟩
+
+/-- **centimorgan ends never decrease**: if every recombination closes its tract at a marker of the genetic map
+    (`e.endCm = f chrom e.endBp`), chromosomes are closed at their last marker (`cmEnd i = f chrom MAX`) and the map's
+    cM never decreases with bp, then in every haplotype of every generation the cM ends never decrease along a
+    chromosome (and every tract end is a point of the map) -/
+theorem cm_never_decreases (f : Nat → Nat → Int) (hf : ∀ c a b, a ≤ b → f c a ≤ f c b)
+    (n : Nat) (chromOf : Nat → Nat) (hmono : ∀ a b, a < b → b < n → chromOf a < chromOf b)
+    (cmEnd : Nat → Int) (hend : ∀ i, cmEnd i = f (chromOf i) MAX)
+    (gens : List (List SampleTape)) (hok : TapesOK n 0 gens)
+    (hon : ∀ ts ∈ gens, ∀ t ∈ ts, EventsOnMap f chromOf t.events) :
+    ∃ gs, simulateAll n chromOf cmEnd #[] gens = some gs ∧ ∀ g ∈ gs, ∀ segs ∈ g.toList,
+      segs.toList.Pairwise (fun a b => a.chrom = b.chrom → a.cm ≤ b.cm) := by
+  obtain ⟨gs, h1, _, h3⟩ := C01.every_generation_wf n chromOf hmono cmEnd gens hok
+  have h4 := generations_onMap f n chromOf cmEnd hend gens #[] gs (by intro s hs; simp at hs) hon h1
+  exact ⟨gs, h1, fun g hg segs hs => cm_mono_of_onMap f hf segs.toList (h3 g hg segs hs).1 (h4 g hg segs hs)⟩
+
+/-- **labels are source populations only**: every label in every generation is the founding population of a source
+    individual, i.e. a population the model file drew with positive probability – never 0, the admixed pseudo-population -/
+theorem labels_are_sources (n : Nat) (chromOf : Nat → Nat) (cmEnd : Nat → Int) (gens : List (List SampleTape))
+    (gs : List (Array (Array Seg))) (h : simulateAll n chromOf cmEnd #[] gens = some gs) :
+    ∀ g ∈ gs, ∀ segs ∈ g.toList, ∀ s ∈ segs.toList, s.pop ≠ 0 ∧ ∃ ts ∈ gens, ∃ t ∈ ts, s.pop = t.pop := by
+  intro g hg segs hs s hsm
+  obtain ⟨ts, hts, t, ht, hp, he⟩ := C01.no_label_invented n chromOf cmEnd gens gs h g hg segs hs s hsm
+  exact ⟨by rw [he]; exact hp, ts, hts, t, ht, he⟩
 
 end C02
